@@ -129,13 +129,16 @@ class Interp:
         self.frames.append(fr)
         if len(self.frames) > 40:
             raise Undecided("recursion depth")
+        is_gen = bool(fn.__code__.co_flags & inspect.CO_GENERATOR)
+        if is_gen:
+            fr.yields = []
         try:
             if isinstance(node, ast.Lambda):
                 return self.ev(node.body, fr)
             self.block(node.body, fr)
-            return None
+            return fr.yields if is_gen else None
         except ReturnEx as r:
-            return r.v
+            return fr.yields if is_gen else r.v
         finally:
             self.frames.pop()
 
@@ -757,6 +760,22 @@ class Interp:
     def ex_BinOp(self, e, fr):
         return self.binop(e.op, self.ev(e.left, fr), self.ev(e.right, fr))
 
+    def ex_Yield(self, e, fr):
+        # generator bodies are run eagerly (pure generators only): the yielded values are collected
+        if not hasattr(fr, "yields"):
+            raise Undecided("yield outside a generator function")
+        fr.yields.append(self.ev(e.value, fr) if e.value is not None else None)
+        return None
+
+    def ex_YieldFrom(self, e, fr):
+        if not hasattr(fr, "yields"):
+            raise Undecided("yield from outside a generator function")
+        v = self.ev(e.value, fr)
+        if isinstance(v, Sym):
+            raise Undecided("yield from a symbolic iterable")
+        fr.yields.extend(self.iterate(v))
+        return None
+
     def ex_Starred(self, e, fr):
         raise Undecided("starred expression")
 
@@ -902,6 +921,20 @@ class Interp:
         if isinstance(o, SRec):
             if name in o.fields:
                 return o.fields[name]
+            try:
+                static = inspect.getattr_static(o.cls, name)
+            except AttributeError:
+                raise PyRaise(AttributeError, name)
+            if isinstance(static, types.FunctionType):
+                interp = self
+                return SymMethod(lambda *a, **k: interp.call(static, [o] + list(a), k, fr, node=node), name)
+            if isinstance(static, property):
+                return self.call(static.fget, [o], {}, fr, node=node)
+            if isinstance(static, classmethod):
+                interp = self
+                return SymMethod(lambda *a, **k: interp.call(static.__func__, [o.cls] + list(a), k, fr, node=node), name)
+            if isinstance(static, staticmethod):
+                return static.__func__
             try:
                 return getattr(o.cls, name)
             except AttributeError:
